@@ -97,7 +97,7 @@ GuardFails(t, v, isRoot) ==
 GuardCode(t, v) ==
   LET g == T(t).guard IN
   CASE g = "requires" -> 206
-    [] g = "enum"     -> IF v = "" THEN 206 ELSE 207
+    [] g = "enum"     -> 207          \* V is always passed (possibly empty): outside the enum, not missing
     [] g = "precond"  -> 1
     [] g = "prompt"   -> 205
     [] g = "internal" -> 202
